@@ -8,6 +8,9 @@
 (* Volatile state (lost by a crash):                                       *)
 (*   wmem    - in-memory copy of the synced tip (NtfnsHandler.bestBlock)   *)
 (*   memp    - in-memory set of known pending tx ids (NtfnsHandler.mempool)*)
+(*   wexp    - blocks connected by THIS running instance (the keys of the  *)
+(*             in-memory NtfnsHandler.expiredMempool): when one of them is *)
+(*             disconnected its relevant transactions become "known"       *)
 (*   up      - the follower goroutines are running                         *)
 (*                                                                         *)
 (* Every handler step is one mwdb.Update on the wallet database, hence     *)
@@ -27,13 +30,13 @@ CONSTANT StrictOrder   \* TRUE: the node never has a tip and an unconfirmed tran
 CONSTANTS InitAbsent,  \* wallets that do not exist in this instance initially (they can be imported)
           ImportBatch  \* heights covered by one rescan batch (1000 in the code; scaled by a verif hook)
 
-VARIABLES wchain, pend, wmem, memp, up,
+VARIABLES wchain, pend, wmem, memp, wexp, up,
           status,   \* per wallet: "absent" | "ready" | "importing" | "removing"   (bucket ws, durable)
           cursor,   \* per importing wallet: height up to which the rescan has recorded its history (durable)
           tasks,    \* queue of background tasks <<kind, wallet>> (volatile; rebuilt from status on restart)
           faulted   \* a block step failed on a storage error and no later block step has succeeded yet
 
-followerVars == <<wchain, pend, wmem, memp, up, status, cursor, tasks, faulted>>
+followerVars == <<wchain, pend, wmem, memp, wexp, up, status, cursor, tasks, faulted>>
 
 Ready == {w \in Wallets : status[w] = "ready"}
 \* wallets whose transactions at height h are on record (live, or already covered by the rescan)
@@ -165,7 +168,7 @@ FollowerInit ==
     /\ wchain = [b \in 1..Base |-> b]
     /\ pend = {}
     /\ wmem = Base
-    /\ memp = {}
+    /\ memp = {} /\ wexp = {}
     /\ up = TRUE
     /\ status = [w \in Wallets |-> IF w \in InitAbsent THEN "absent" ELSE "ready"]
     /\ cursor = [w \in Wallets |-> 0]
@@ -188,7 +191,12 @@ HandleBlock ==
     /\ ntfB' = Tail(ntfB)
     \* any block step that commits repairs what an earlier failed one left undone
     /\ faulted' = IF Head(ntfB) \in Range(wchain) \/ OnBest(Head(ntfB)) THEN FALSE ELSE faulted
-    /\ UNCHANGED <<reorg, parent, content, best, pool, ntfT, memp, up, status, tasks>>
+    \* the relevant transactions of disconnected blocks that this instance had connected itself are
+    \* "known" from now on (expiredMempool -> mempool): a later announcement of them is ignored
+    /\ LET wc2 == Abs(wchain, Head(ntfB)) IN
+       /\ memp' = memp \cup UNION {{t \in Range(content[b]) : Relevant(t, Ready)} : b \in GoneBlocks(wchain, wc2) \cap wexp}
+       /\ wexp' = (wexp \ GoneBlocks(wchain, wc2)) \cup NewBlocks(wchain, wc2)
+    /\ UNCHANGED <<reorg, parent, content, best, pool, ntfT, up, status, tasks>>
 
 HandleTx ==
     /\ up
@@ -198,6 +206,7 @@ HandleTx ==
        THEN /\ pend' = pend \cup {t}
             /\ memp' = memp \cup {t}
        ELSE UNCHANGED <<pend, memp>>
+    /\ UNCHANGED wexp
     /\ ntfT' = Tail(ntfT)
     /\ UNCHANGED <<reorg, parent, content, best, pool, ntfB, wchain, wmem, up, status, cursor, tasks, faulted>>
 
@@ -252,7 +261,7 @@ Crash ==
     /\ up
     /\ up' = FALSE
     /\ ntfB' = <<>> /\ ntfT' = <<>> /\ pool' = {}
-    /\ memp' = {} /\ wmem' = 0 /\ tasks' = <<>> /\ faulted' = FALSE
+    /\ memp' = {} /\ wexp' = {} /\ wmem' = 0 /\ tasks' = <<>> /\ faulted' = FALSE
     /\ reorg' = 0        \* a reorganisation in progress dies with the process; the chain database stays where it was
     /\ UNCHANGED <<parent, content, best, wchain, pend, status, cursor>>
 
@@ -262,6 +271,7 @@ Restart ==
        IN /\ wchain' = r[1] /\ pend' = r[2]
           /\ wmem' = IF r[1] = <<>> THEN 0 ELSE Last(r[1])
           /\ cursor' = CursorAfter(wchain, r[1])
+          /\ wexp' = NewBlocks(wchain, r[1])
     /\ up' = TRUE
     \* the worker re-queues unfinished background work from the persisted wallet status
     /\ tasks' \in Perms(TaskSet)     \* in the order GetAllWalletStatus yields them
@@ -273,7 +283,7 @@ RestartCrash(k) ==
     /\ LET r == CatchUp(wchain, pend, k)
        IN /\ wchain' = r[1] /\ pend' = r[2]
           /\ cursor' = CursorAfter(wchain, r[1])
-    /\ UNCHANGED <<reorg, parent, content, best, pool, ntfB, ntfT, memp, wmem, up, status, tasks, faulted>>
+    /\ UNCHANGED <<reorg, parent, content, best, pool, ntfB, ntfT, memp, wexp, wmem, up, status, tasks, faulted>>
 
 (***************************************************************************)
 (* Wallet life cycle (C07, C08): background import and removal.            *)
@@ -294,13 +304,13 @@ Import(w) ==
     /\ status' = [status EXCEPT ![w] = "importing"]
     /\ cursor' = [cursor EXCEPT ![w] = 0]
     /\ tasks' = Append(tasks, <<"import", w>>)
-    /\ UNCHANGED <<chainVars, wchain, pend, wmem, memp, up, faulted>>
+    /\ UNCHANGED <<chainVars, wchain, pend, wmem, memp, wexp, up, faulted>>
 
 Remove(w) ==
     /\ up /\ status[w] = "ready" /\ ~Busy
     /\ status' = [status EXCEPT ![w] = "removing"]
     /\ tasks' = Append(tasks, <<"remove", w>>)
-    /\ UNCHANGED <<chainVars, wchain, pend, wmem, memp, up, cursor, faulted>>
+    /\ UNCHANGED <<chainVars, wchain, pend, wmem, memp, wexp, up, cursor, faulted>>
 
 \* does block b contain a transaction (coinbase included) that concerns a wallet of W ?
 ConcernsBlock(b, W) ==
@@ -331,7 +341,7 @@ ImportStep ==
                        /\ tasks' = Append(Tail(tasks), Head(tasks))
           ELSE /\ UNCHANGED <<status, cursor>>
                /\ tasks' = Append(Tail(tasks), Head(tasks))
-    /\ UNCHANGED <<chainVars, wchain, pend, wmem, memp, up, faulted>>
+    /\ UNCHANGED <<chainVars, wchain, pend, wmem, memp, wexp, up, faulted>>
 
 RemoveStep ==
     /\ up /\ tasks # <<>> /\ Head(tasks)[1] = "remove"
@@ -341,7 +351,7 @@ RemoveStep ==
        \* pending transactions that pay the wallet and no other wallet of this instance go with it
        \* (RemoveRelevantTx finds them through the wallet's pending credits)
        /\ pend' = {t \in pend : ~PaysTo(t, {w}) \/ PaysTo(t, {x \in Wallets \ {w} : status[x] # "absent"})}
-    /\ UNCHANGED <<chainVars, wchain, wmem, memp, up, cursor, faulted>>
+    /\ UNCHANGED <<chainVars, wchain, wmem, memp, wexp, up, cursor, faulted>>
 
 \* A removal is several database commits (the first phase, then the rounds; the last round deletes
 \* the credits, the wallet-status record and the keystore together).  The process may die between
@@ -358,7 +368,7 @@ RemoveStepCrash(k) ==
             /\ pend' = {t \in pend : ~PaysTo(t, {w}) \/ PaysTo(t, {x \in Wallets \ {w} : status[x] # "absent"})}
     /\ up' = FALSE
     /\ ntfB' = <<>> /\ ntfT' = <<>> /\ pool' = {}
-    /\ memp' = {} /\ wmem' = 0 /\ tasks' = <<>> /\ faulted' = FALSE /\ reorg' = 0
+    /\ memp' = {} /\ wexp' = {} /\ wmem' = 0 /\ tasks' = <<>> /\ faulted' = FALSE /\ reorg' = 0
     /\ UNCHANGED <<parent, content, best, wchain, cursor>>
 
 (***************************************************************************)
@@ -373,17 +383,17 @@ HandleBlockFault ==
     /\ up /\ ntfB # <<>>
     /\ ntfB' = Tail(ntfB)
     /\ faulted' = TRUE
-    /\ UNCHANGED <<reorg, parent, content, best, pool, ntfT, wchain, pend, wmem, memp, up, status, cursor, tasks>>
+    /\ UNCHANGED <<reorg, parent, content, best, pool, ntfT, wchain, pend, wmem, memp, wexp, up, status, cursor, tasks>>
 
 HandleTxFault ==
     /\ up /\ ntfT # <<>>
     /\ ntfT' = Tail(ntfT)
-    /\ UNCHANGED <<reorg, parent, content, best, pool, ntfB, wchain, pend, wmem, memp, up, status, cursor, tasks, faulted>>
+    /\ UNCHANGED <<reorg, parent, content, best, pool, ntfB, wchain, pend, wmem, memp, wexp, up, status, cursor, tasks, faulted>>
 
 WorkerStepFault ==
     /\ up /\ tasks # <<>>
     /\ tasks' = Append(Tail(tasks), Head(tasks))
-    /\ UNCHANGED <<chainVars, wchain, pend, wmem, memp, up, status, cursor, faulted>>
+    /\ UNCHANGED <<chainVars, wchain, pend, wmem, memp, wexp, up, status, cursor, faulted>>
 
 (***************************************************************************)
 (* Properties                                                              *)
